@@ -5,7 +5,10 @@ CLASSES = {
   'Heap': dict(path='Heap'),
   'Node': dict(path='HeapBalancerSink.Node', fields={
     'load': 'int', 'index': 'int', 'downq': 'Node?', 'avg_load': 'int',
-    'channel': 'Channel', 'endpoint': 'any'}),
+    'channel': 'Channel', 'endpoint': 'any',
+    # ghost: requests dispatched to the node and not yet released; membership of the down list
+    'g_out': 'int', 'g_inq': 'bool', 'g_rank': 'int'}, ghost=['g_out', 'g_inq', 'g_rank']),
+  'ChannelFactory': dict(extern=True, path=None, fields={}, bases=[]),
   'HeapBalancerSink': dict(path='HeapBalancerSink', bases=['LoadBalancerSink'], fields={
     '_heap': 'list[Node]', '_size': 'int', '_downq': 'Node?', '_open': 'bool',
     '_no_members': 'Channel'}),
@@ -40,9 +43,20 @@ PREDICATES.update({
   # per-instance node universe: a node with a non-negative index sits in the heap at that index;
   # the sentinel (index 0) is never on the down list
   'HI_nodes': (['s'],
-     'forall_ref(r, Node, implies(allocated(r) and r.index >= 0, r.index < len(s._heap) and s._heap[r.index] == r), r.index) and '
-     'forall_ref(r, Node, implies(allocated(r), r.downq != s._heap[0]), r.downq) and s._downq != s._heap[0]'),
-  'HeapInv': (['s'], 'HI_shape(s) and HI_bij(s) and HI_ord(s) and HI_nodes(s)'),
+     'forall_ref(r, Node, implies(allocated(r) and r.index >= 0, r.index < len(s._heap) and s._heap[r.index] == r), r.index)'),
+  # load encoding: Idle + outstanding while up, outstanding (= Idle + Penalty + outstanding) while marked down
+  'HI_loads': (['s'],
+     'forall_ref(r, Node, implies(allocated(r), 0 <= r.g_out and r.g_out <= 2147483645 and '
+     '           (r.load == HeapBalancerSink.Idle + r.g_out or r.load == r.g_out)), r.load)'),
+  # the down list: closed under .downq, injective, only down-marked or discarded nodes
+  'HI_chain': (['s'],
+     'implies(s._downq is not None, s._downq.g_inq) and '
+     'forall_ref(r, Node, implies(r.g_inq, allocated(r) and r != s._heap[0]), r.g_inq) and '
+     'forall_ref(r, Node, implies(r.g_inq and r.downq is not None, r.downq.g_inq), r.downq) and '
+     'forall_ref(r, Node, implies(r.g_inq and r.index >= 0, r.load >= 0), r.g_inq) and '
+     'forall_ref(r, Node, implies(r.g_inq and r.downq is not None, r.downq != s._downq and r.downq.g_rank > r.g_rank), r.downq) and '
+     'forall_ref((r1, r2), Node, implies(r1.g_inq and r2.g_inq and r1.downq is not None and r1.downq == r2.downq, r1 == r2), (r1.downq, r2.downq))'),
+  'HeapInv': (['s'], 'HI_shape(s) and HI_bij(s) and HI_ord(s) and HI_nodes(s) and HI_loads(s) and HI_chain(s)'),
 })
 
 _SWAP_FRAME = [
@@ -137,16 +151,30 @@ FUNCTIONS = {
     props=['C03'],
   ),
 
-  # ---------------------------------------------------------------- balancer
+  # ---------------------------------------------------------------- balancer hooks
   'HeapBalancerSink._OnNodeDown': dict(
     cls='HeapBalancerSink', params={'node': 'Node'}, returns='AsyncResult',
     requires=['HeapInv(self)'],
     ensures=['HeapInv(self)', 'self._size >= old(self._size)',
              'forall(k, 1, old(self._size) + 1, self._heap[k] == old(self._heap[k]))',
              'self._downq == old(self._downq)'],
-    modifies=[],
-    drop=['AsyncResult'],
-    props=['C03'],
+    modifies=[], drop=['AsyncResult'], props=['C03', 'C04'],
+  ),
+  'HeapBalancerSink._OnPut': dict(
+    cls='HeapBalancerSink', params={'node': 'Node'},
+    requires=['HeapInv(self)'],
+    ensures=['HeapInv(self)', 'self._size >= old(self._size)',
+             'forall(k, 1, old(self._size) + 1, self._heap[k] == old(self._heap[k]))',
+             'self._downq == old(self._downq)'],
+    modifies=[], drop=['AsyncResult'], props=['C03', 'C04'],
+  ),
+  'HeapBalancerSink._OnGet': dict(
+    cls='HeapBalancerSink', params={'node': 'Node'},
+    requires=['HeapInv(self)'],
+    ensures=['HeapInv(self)', 'self._size >= old(self._size)',
+             'forall(k, 1, old(self._size) + 1, self._heap[k] == old(self._heap[k]))',
+             'self._downq == old(self._downq)'],
+    modifies=[], drop=['AsyncResult'], props=['C03', 'C04'],
   ),
 
   'HeapBalancerSink.__Get': dict(
@@ -158,14 +186,72 @@ FUNCTIONS = {
       'result == self._heap[1]',
       'result.channel.state == ChannelState.Open or result.load >= 0',
     ],
-    modifies=['Node.load', 'Node.index', 'Node.downq', 'list[Node].items', 'HeapBalancerSink._downq'],
+    modifies=['Node.load', 'Node.index', 'Node.downq', 'Node.g_inq', 'Node.g_rank', 'list[Node].items', 'HeapBalancerSink._downq'],
+    ghost=[
+      {'before': 'n = n.downq', 'do': ['n.g_inq = False']},
+      {'after': 'n.downq = None', 'do': ['n.g_inq = False']},
+      {'after': 'n.downq = self._downq', 'do': ['n.g_inq = True', 'n.g_rank = (self._downq.g_rank - 1) if self._downq is not None else 0']},
+    ],
     loops={
       0: dict(invariant=['HeapInv(self)', 'self._size >= old(self._size)', 'self._size >= 1'],
-              modifies=['Node.load', 'Node.index', 'Node.downq', 'list[Node].items', 'HeapBalancerSink._downq']),
+              modifies=['Node.load', 'Node.index', 'Node.downq', 'Node.g_inq', 'Node.g_rank', 'list[Node].items', 'HeapBalancerSink._downq']),
       1: dict(invariant=['HeapInv(self)', 'self._size >= old(self._size)', 'self._size >= 1',
-                         'implies(n is not None, n != self._heap[0])', 'implies(m is not None, m != self._heap[0])'],
-              modifies=['Node.load', 'Node.index', 'Node.downq', 'list[Node].items', 'HeapBalancerSink._downq']),
+                         'implies(n is not None, n.g_inq)',
+                         'implies(m is None, n == self._downq)',
+                         'implies(m is not None, m.g_inq and m.downq == n)'],
+              modifies=['Node.load', 'Node.index', 'Node.downq', 'Node.g_inq', 'Node.g_rank', 'list[Node].items', 'HeapBalancerSink._downq']),
     },
-    props=['C03'],
+    props=['C03', 'C04'],
   ),
+
+  'HeapBalancerSink.__Put': dict(
+    cls='HeapBalancerSink', params={'n': 'Node'},
+    requires=['HeapInv(self)', 'allocated(n)', 'n != self._heap[0]', 'n.g_out >= 1'],
+    ensures=['HeapInv(self)', 'n.g_out == old(n.g_out) - 1',
+             'forall_ref(r, Node, implies(r != n, r.g_out == old(r.g_out)), r.g_out)',
+             # a node that has left the heap is closed exactly when its last request is released
+             'implies(old(n.index) < 0 and n.g_out == 0, n.channel.state == ChannelState.Closed or n.channel.state == old(n.channel.state))',
+             'implies(not (old(n.index) < 0 and n.g_out == 0), forall_ref(c, Channel, c.state == old(c.state), c.state))'],
+    modifies=['Node.load', 'Node.index', 'Node.g_out', 'list[Node].items', 'Channel.state'],
+    ghost=[
+      {'after': 'n.load -= 1', 'do': ['n.g_out = n.g_out - 1']},
+      {'before': 'n.load = self.Idle', 'do': ['assert False']},   # the clamp is unreachable
+    ],
+    props=['C03', 'C04'],
+  ),
+
+  'HeapBalancerSink._FindNodeByEndpoint': dict(
+    cls='HeapBalancerSink', params={'endpoint': 'any'}, returns='Node?',
+    requires=['HI_shape(self)'],
+    ensures=[
+      'implies(result is not None, exists(k, 1, len(self._heap), self._heap[k] == result and result.endpoint == endpoint))',
+      'implies(result is None, forall(k, 1, len(self._heap), self._heap[k].endpoint != endpoint))',
+    ],
+    modifies=[], trusted=True,
+    notes='generator expression next(... for idx, node in enumerate(self._heap) if ...) : first-match idiom, contract assumed (bounded check in thorough tier)',
+    props=['C03', 'C05'],
+  ),
+
+  'HeapBalancerSink._RemoveSink': dict(
+    cls='HeapBalancerSink', params={'endpoint': 'any'}, returns='bool',
+    locals={'node': 'Node?'},
+    requires=['HeapInv(self)'],
+    ensures=['HeapInv(self)',
+             'forall_ref(r, Node, r.g_out == old(r.g_out), r.g_out)',
+             'implies(not result, self._size == old(self._size))',
+             'implies(result, self._size == old(self._size) - 1)'],
+    modifies=['Node.index', 'list[Node]', 'HeapBalancerSink._size', 'Channel.state'],
+    props=['C03', 'C04', 'C05'],
+  ),
+}
+
+EXTERNS = {
+  'random.randint': dict(params=[('a', 'int'), ('b', 'int')], returns='int',
+                         requires=['a <= b'], ensures=['a <= result and result <= b'],
+                         notes='unconstrained choice in range: every outcome of the random draw is covered'),
+  # closing a channel changes only that channel's observable state
+  'Channel.Close': dict(params=[], modifies=['Channel.state'],
+                        ensures=['forall_ref(c, Channel, implies(c != self, c.state == old(c.state)), c.state)',
+                                 'self.state == ChannelState.Closed or self.state == old(self.state)'],
+                        notes='ClientMessageSink.Close of a member channel (transport/pool/resurrector stack): assumed not to raise, not to yield'),
 }
